@@ -83,11 +83,13 @@ impl Network for TxNet {
 #[derive(Default)]
 struct RecDissem {
     shreds: Mutex<Vec<Shred>>,
+    total: AtomicUsize,
 }
 
 impl Disseminator for RecDissem {
     async fn send(&self, shred: &Shred) -> std::io::Result<()> {
         self.shreds.lock().unwrap().push(shred.clone());
+        self.total.fetch_add(1, Ordering::SeqCst);
         Ok(())
     }
 
@@ -109,8 +111,8 @@ struct Run {
     pool: SharedPool,
     pr_tx: Option<oneshot::Sender<BlockId>>,
     handle: Option<JoinHandle<anyhow::Result<Option<BlockId>>>>,
-    /// shreds of the recorder already turned into slices
-    consumed: usize,
+    /// shreds taken from the recorder and not yet turned into a slice
+    backlog: Vec<Shred>,
     /// accepted (per the model) transactions not yet seen in a slice, in sending order
     expected_txs: VecDeque<Vec<u8>>,
     /// all transactions seen in slices so far
@@ -323,7 +325,7 @@ impl ProducerDriver {
             pool,
             pr_tx,
             handle: Some(handle),
-            consumed: 0,
+            backlog: Vec::new(),
             expected_txs: VecDeque::new(),
             in_slices: Vec::new(),
             shipped: Vec::new(),
@@ -360,7 +362,7 @@ impl ProducerDriver {
 
     fn signature(&self) -> (usize, bool) {
         let run = self.run.as_ref().expect("run");
-        (run.dissem.shreds.lock().unwrap().len(), run.handle.as_ref().is_none_or(JoinHandle::is_finished))
+        (run.dissem.total.load(Ordering::SeqCst), run.handle.as_ref().is_none_or(JoinHandle::is_finished))
     }
 
     /// everything the producer did since the last call, in the shape of the model's step output
@@ -386,13 +388,10 @@ impl ProducerDriver {
         let _ = model_acc;
 
         // new slices of the block under production, from the shreds given to the disseminator
-        let all: Vec<Shred> = {
-            let g = run.dissem.shreds.lock().unwrap();
-            g.iter().cloned().collect()
-        };
-        while all.len() >= run.consumed + TOTAL_SHREDS {
-            let group = &all[run.consumed..run.consumed + TOTAL_SHREDS];
-            run.consumed += TOTAL_SHREDS;
+        let fresh = std::mem::take(&mut *run.dissem.shreds.lock().unwrap());
+        run.backlog.extend(fresh);
+        while run.backlog.len() >= TOTAL_SHREDS {
+            let group: Vec<Shred> = run.backlog.drain(..TOTAL_SHREDS).collect();
             let mut arr: [Option<ValidatedShred>; TOTAL_SHREDS] = [const { None }; TOTAL_SHREDS];
             let mut commitment = None;
             for (i, s) in group.iter().enumerate() {
@@ -433,7 +432,7 @@ impl ProducerDriver {
                 Err(e) => chk.push(format!("slice does not deshred: {e:?}")),
             }
         }
-        if all.len() != run.consumed {
+        if !run.backlog.is_empty() {
             chk.push("a slice was disseminated only partially".into());
         }
 
